@@ -10,6 +10,30 @@ extra = V / "design.d" / "seeded.md"
 if extra.exists():
     body += "\n\n" + extra.read_text().strip()
 import json
+# ---- summary table (measured: evidence files, findings.d, seeded results)
+rows = []
+allk = allf = 0
+res_all = json.loads((V / "seeded" / "RESULTS.json").read_text()) if (V / "seeded" / "RESULTS.json").exists() else {}
+for pid in [json.loads(l)["id"] for l in (V / "properties.jsonl").read_text().splitlines() if l.strip()]:
+    ev = V / "evidence" / f"{pid}.json"
+    ob = dis = "-"; wall = "-"
+    if ev.exists():
+        e = json.loads(ev.read_text()); ob = e["coverage"].get("obligations", "-"); dis = e["coverage"].get("discharged", "-"); wall = e.get("wall_s", "-")
+    fd = V / "findings.d" / f"{pid}.json"
+    k = f = 0
+    if fd.exists():
+        for x in json.loads(fd.read_text()).get("findings", []):
+            if x.get("status") == "known": k += 1
+            elif str(x.get("status", "")).startswith("fixed"): f += 1
+    allk += k; allf += f
+    sd = {n: v for n, v in res_all.items() if n.startswith(pid + "-")}
+    sc = sum(1 for v in sd.values() if v["outcome"] == "caught"); so = sum(1 for v in sd.values() if v["outcome"] == "caught-obligation-only")
+    claimed = (V / "manifest.d" / f"{pid}.json").exists()
+    rows.append(f"| {pid} | {'yes' if claimed else 'parked'} | {dis}/{ob} | {f} | {k} | {sc}+{so}/{len(sd)} | {wall} |")
+summary = ("### 11.1 Summary (generated from evidence/, findings.d/, seeded/RESULTS.json)\n\n"
+           "| property | claimed | theorems discharged / audited (last quick run) | defects fixed in /repo (`fix:` entries) | known findings | seeded changes caught (concrete+obligation-only / total) | quick wall s |\n|---|---|---|---|---|---|---|\n"
+           + "\n".join(rows) + f"\n\nTotals: {allf} `fixed:` entries, {allk} known findings.\n")
+body = summary + "\n" + body
 rf = V / "seeded" / "RESULTS.json"
 if rf.exists():
     res = json.loads(rf.read_text())
